@@ -229,6 +229,18 @@ theorem getIn_split (c : Config) (p : Path) (v : Val) (pre post : List String) (
     intro x hx; exact hpost x (by simpa using hx)
   simp [this, hl]
 
+/-- after `del cfg.<key>` nothing at or below `key` has a value any more – frozen or not -/
+theorem get_delete_none (c : Config) (key : String) (p : Path) (h : Config.under key p = true) :
+    (c.delete key).get p = none := by
+  unfold Config.get Config.getIn
+  rw [List.findSome?_eq_none_iff]
+  intro l _
+  apply atLayer_none
+  intro e he ⟨_, hp⟩
+  simp only [Config.delete, List.mem_filter] at he
+  rw [hp, h] at he
+  simp at he
+
 /-! ### Registration -/
 
 /-- a registration step only appends configuration entries; everything about setup is untouched -/
